@@ -391,6 +391,14 @@ func Worker(tb *testing.T, cfg WorkerConfig) *Summary {
 		}
 		if ms > 5000 {
 			sum.SlowRuns++
+			if f := os.Getenv("VSIM_SLOWLOG"); f != "" {
+				// debugging aid: re-run with notes kept and log the scenario
+				again := RunOne(p, tb, cfg.Tier, tape.New(seed), true)
+				if fh, err := os.OpenFile(f, os.O_APPEND|os.O_CREATE|os.O_WRONLY, 0o644); err == nil {
+					fmt.Fprintf(fh, "run=%d ms=%.0f notes=%v\n", i, ms, again.Notes)
+					fh.Close()
+				}
+			}
 		}
 		if evlog != nil {
 			vk := ""
